@@ -46,9 +46,23 @@ every edge stays inside `{0..n-1}` and no flagged index lies in `{0..n-1}`. -/
 def importSafe (n : Nat) (edges : Edges) (flagged : List Nat) : Bool :=
   edgesBelow edges n && flagged.all (fun f => decide (n ≤ f))
 
-/-- decision procedure for "no node `< n` can reach a seed": `B` contains the seeds, is closed
-backwards under all edges, and contains no node `< n`. -/
-def noRootReachesSeed (n : Nat) (edges : Edges) (seeds B : List Nat) : Bool :=
-  seeds.all (fun s => B.contains s) && closedUnderRev edges B && B.all (fun b => decide (n ≤ b))
+/-- node sets of generated tables are BITMASKS (`i ∈ S` iff bit `i` of the literal is set): the kernel
+evaluates `Nat.testBit` on literals with GMP, so a closedness check costs O(|edges|) whatever the size
+of the set (a `List.contains` version costs O(|edges|·|S|) kernel steps, minutes and GBs when a broken
+table makes `S` large — a broken table must fail FAST). -/
+def inMask (mask i : Nat) : Bool := mask.testBit i
+
+/-- the set `mask` is closed under the REVERSED edges -/
+def closedUnderRevMask (edges : Edges) (mask : Nat) : Bool :=
+  edges.all (fun e => !inMask mask e.2 || inMask mask e.1)
+
+/-- decision procedure for "no node `< n` can reach a seed": the set `mask` contains no node `< n`,
+contains the seeds, and is closed backwards under all edges. -/
+def noRootReachesSeed (n : Nat) (edges : Edges) (seeds : List Nat) (mask : Nat) : Bool :=
+  (List.range n).all (fun m => !inMask mask m) && seeds.all (fun s => inMask mask s) &&
+    closedUnderRevMask edges mask
+
+/-- bitmask of a list of nodes (for small hand-made examples) -/
+def maskOf (l : List Nat) : Nat := l.foldl (fun m i => m ||| (1 <<< i)) 0
 
 end Dask.Closure
